@@ -114,6 +114,31 @@ def run(chk):
                          f"the tag set of {pk} changed after other platforms were evaluated (+{sorted(now - tagsets[pk])[:3]}, -{sorted(tagsets[pk] - now)[:3]}): "
                          f"compare()'s LOWER_OR_EQUAL/HIGHER answers no longer match the tag sets the platform accepts")
                 break
+    # the same nesting obligations with the platforms' tag lists computed in the opposite order on a fresh interpreter
+    # (memo tables shared between architectures or families make the lists depend on what was computed first)
+    d2 = TagsDomain(str(chk.src))
+    it2 = d2.it
+    mem2 = {m.f["value"]: m for m in d2.Arch.members}
+
+    def plat2(osname, args, arch):
+        return it2.construct(d2.Platform, [it2.construct(it2.resolve(d2.om.ns[osname]), list(args), {}), mem2[arch]], {})
+    recipe = {"manylinux_2_17": ("Manylinux", (2, 17)), "manylinux_2_28": ("Manylinux", (2, 28)), "musllinux_1_1": ("Musllinux", (1, 1)),
+              "musllinux_1_2": ("Musllinux", (1, 2)), "macos_11_0": ("Macos", (11, 0)), "macos_14_2": ("Macos", (14, 2)), "windows": ("Windows", ()),
+              "macos_10_9": ("Macos", (10, 9)), "macos_10_15": ("Macos", (10, 15)), "manylinux_2_5": ("Manylinux", (2, 5))}
+    tagsets2 = {}
+    for pk in reversed([k for k in plats if k != "none"]):
+        fam_, arch_ = pk.rsplit("_", 1) if not pk.endswith("x86_64") else (pk[:-7], "x86_64")
+        osname, args = recipe[fam_]
+        try:
+            tagsets2[pk] = set(it2.getattr(plat2(osname, args, arch_), "compatible_tags"))
+        except PyRaise as e:
+            chk.fail("R16.1", "dep_logic.tags.platform:Platform.compatible_tags:raises", f"compatible_tags of {pk} raises {e.exc!r} (reverse creation order)")
+    for pk, ts in tagsets2.items():
+        if ts != tagsets[pk]:
+            chk.fail("R16.1", "dep_logic.tags.platform:Platform.compatible_tags:order-dependence",
+                     f"the tag set of {pk} depends on which platforms were evaluated before it (+{sorted(ts - tagsets[pk])[:3]}, -{sorted(tagsets[pk] - ts)[:3]} "
+                     f"when computed in the opposite order): compare()'s answers cannot match both")
+            break
     chk.sample({"a": str(specs[5][0]), "b": str(specs[9][0]), "compare": table.get((specs[5][0], specs[9][0]))})
     # R16.2 residual form (symbolic requires_python)
     from ..absint import AnalysisError
